@@ -80,13 +80,15 @@ def generate(rng, tier):
         body = c07.body_of(L, rng.randrange(0, 50))
         rt = c07.rtok(rand_ranges(rng, L))
         kind = rng.choice(["buf", "fileb", "filer", "filep", "gen", "stream", "pipe"])
+        # 'k': the body is looked at (res.data) between construction and sending
+        peek = "k" if kind in ("buf", "fileb", "filer", "filep") and rng.random() < 0.35 else ""
         if kind == "buf":
-            cases.append("C06 buf %s %s" % (hx(body), rt))
+            cases.append("C06 buf%s %s %s" % (peek, hx(body), rt))
         elif kind in ("fileb", "filer"):
             off = rng.randrange(0, 4)
-            cases.append("C06 %s %s %d %s" % (kind, hx(c07.body_of(off, 1) + body), off, rt))
+            cases.append("C06 %s%s %s %d %s" % (kind, peek, hx(c07.body_of(off, 1) + body), off, rt))
         elif kind == "filep":
-            cases.append("C06 filep %s 0 %s" % (hx(body), rt))
+            cases.append("C06 filep%s %s 0 %s" % (peek, hx(body), rt))
         elif kind in ("stream", "pipe"):
             cases.append("C06 %s %s %s" % (kind, hx(body), rt))
         else:
@@ -99,7 +101,16 @@ def generate(rng, tier):
     return cases
 
 
+def unpeek(case):
+    t = case.split()
+    if t[1] in ("bufk", "filebk", "filerk", "filepk"):
+        t[1] = t[1][:-1]
+        return " ".join(t), True
+    return case, False
+
+
 def to_model(case):
+    case = unpeek(case)[0]
     t = case.split()
     if t[1] == "writes":
         return ["C06 writes " + " ".join(x[2:] for x in t[2:])]
@@ -110,6 +121,12 @@ def to_model(case):
 
 def build(case):
     from poorwsgi.response import Response, FileObjResponse
+    case, peek = unpeek(case)
+    if peek:
+        res, rep, ranges = c07.build(case)
+        if res.data != rep:        # looking at the body must not change what is sent
+            raise AssertionError("res.data is not the representation")
+        return res, rep, ranges
     t = case.split()
     if t[1] == "writes":
         def val(tok):
@@ -182,6 +199,8 @@ def oracle(case):
     except Exception as err:
         return [Violation("c06-exception", case, "emitting the response raised %r" % (err,))]
     bad = check_emission(case, calls, out, t[1] not in ("stream", "pipe"))
+    if not bad and t[1].endswith("k") and not ranges and out != rep:
+        bad = "body sent differs from the representation after res.data was read"
     if not bad and t[1] == "writes" and out != rep:
         bad = "body sent is not the concatenation of the writes"
     if bad:
